@@ -105,26 +105,24 @@ impl PlMon {
             return true;
         }
         if store {
-            matches!(
-                (from, to),
-                (ST_CREATED, ST_SENDABLE)
-                    | (ST_SENDING, ST_SENT)
-                    | (ST_SENDING, ST_SENDABLE)
-                    // abandonment of a request nobody is inside of
-                    | (ST_SENDABLE, ST_NONE)
-                    | (ST_SENT, ST_NONE)
-                    | (ST_RXDONE, ST_NONE)
-            )
+            matches!((from, to), (ST_CREATED, ST_SENDABLE))
         } else {
             matches!(
                 (from, to),
                 (ST_NONE, ST_CREATED)
                     | (ST_SENDABLE, ST_SENDING)
+                    | (ST_SENDING, ST_SENT)
+                    // send failure: back to the queue
+                    | (ST_SENDING, ST_SENDABLE)
                     | (ST_SENT, ST_RXBUSY)
                     | (ST_RXBUSY, ST_RXDONE)
                     | (ST_RXDONE, ST_RXPROC)
                     | (ST_RXPROC, ST_NONE)
                     | (ST_CREATED, ST_NONE)
+                    // abandonment of a request nobody is inside of
+                    | (ST_SENDABLE, ST_NONE)
+                    | (ST_SENT, ST_NONE)
+                    | (ST_RXDONE, ST_NONE)
             )
         }
     }
@@ -224,7 +222,7 @@ impl Monitor for PlMon {
                     (ST_NONE, ST_CREATED) => {
                         self.generation[slot] += 1;
                         if let Some(h) = self.holders[slot].first().cloned() {
-                            let sig = if h.kind == HolderKind::View { "C01:view-outlives-slot".to_string() } else { format!("{}:realloc-while-held", self.prefix()) };
+                            let sig = if h.kind == HolderKind::View { format!("{}:view-outlives-slot", if self.mode == Mode::Deadlines { "C06" } else { "C01" }) } else { format!("{}:realloc-while-held", self.prefix()) };
                             self.violation(
                                 &format!("{sig}:{:?}", h.kind),
                                 format!("slot {slot} handed to {} while {} still holds a {:?} of the previous request", self.name(ev.actor), self.name(h.actor), h.kind),
@@ -242,6 +240,12 @@ impl Monitor for PlMon {
                     (ST_RXBUSY, ST_RXDONE) => {
                         self.holders[slot].retain(|h| !(h.actor == ev.actor && h.kind == HolderKind::RxClaim));
                     }
+                    (ST_SENDING, ST_SENT) | (ST_SENDING, ST_SENDABLE) => {
+                        self.holders[slot].retain(|h| !(h.actor == ev.actor && h.kind == HolderKind::TxClaim));
+                    }
+                    (ST_ABANDONED, ST_NONE) => {
+                        self.holders[slot].retain(|h| !(h.actor == ev.actor && matches!(h.kind, HolderKind::TxClaim | HolderKind::RxClaim)));
+                    }
                     _ => {}
                 }
                 self.vectors.insert(self.state_vector_hash());
@@ -257,6 +261,13 @@ impl Monitor for PlMon {
                     self.holders[slot].retain(|h| !(h.actor == ev.actor && h.kind == HolderKind::TxClaim));
                 }
                 self.vectors.insert(self.state_vector_hash());
+            }
+            // The future gives its slot up inside poll (last retry expired) or in its Drop.
+            Site::PollTimerFired if ev.a == 0 => {
+                self.holders[slot].retain(|h| !(h.actor == ev.actor && h.kind == HolderKind::Future));
+            }
+            Site::FutDrop => {
+                self.holders[slot].retain(|h| !(h.actor == ev.actor && h.kind == HolderKind::Future));
             }
             Site::InitBegin | Site::PushBegin => self.open_window(slot, ev.actor, Party::Builder),
             Site::InitEnd | Site::PushEnd => self.close_window(slot, ev.actor, Party::Builder),
